@@ -43,6 +43,13 @@ KIND_CLS = {"rydberg": Rydberg, "raman": Raman, "microwave": Microwave}
 KIND_BASIS = {"rydberg": "ground-rydberg", "raman": "digital", "microwave": "XY", "dmm": "ground-rydberg"}
 
 
+def doc_is_detuned_delay(pulse) -> bool:
+    """A 'detuned delay': a pulse whose amplitude is the constant 0 and whose detuning is constant
+    (decided here from the waveforms, not by the scheduler's own helper)."""
+    return bool(isinstance(pulse, Pulse) and isinstance(pulse.amplitude, ConstantWaveform)
+                and float(pulse.amplitude[0]) == 0.0 and isinstance(pulse.detuning, ConstantWaveform))
+
+
 def doc_rise_time(obj) -> int:
     """Documented rise time: int(0.48 / mod_bandwidth[MHz] * 1e3) ns, 0 without a bandwidth
     (recomputed from the public attribute, not read from the property under test)."""
@@ -281,7 +288,7 @@ def pulse_oracle(pulse: Pulse, ch) -> dict:
         info["fs"] = int(adj.fall_time(ch, in_eom_mode=False))
         if ch.supports_eom():
             info["fe"] = int(adj.fall_time(ch, in_eom_mode=True))
-    info["dd"] = bool(_ChannelSchedule.is_detuned_delay(adj))
+    info["dd"] = bool(doc_is_detuned_delay(adj))
     if isinstance(adj.amplitude, ConstantWaveform) and isinstance(adj.detuning, ConstantWaveform):
         info["const"] = True
         info["amp"] = float(adj.amplitude[0])
@@ -583,7 +590,7 @@ class RealSeq:
                             k="P",
                             **base,
                             ph=rat(float(p.phase)),
-                            dd=bool(_ChannelSchedule.is_detuned_delay(p)),
+                            dd=bool(doc_is_detuned_delay(p)),
                             dur=int(p.duration),
                             const=const,
                             amp=rat(float(p.amplitude[0])) if const else "0",
